@@ -731,8 +731,57 @@ func c05Long(c *core.Ctx) {
 	}
 }
 
+// c05ManyTypes: the operator tokens are the k-th token types registered on the lexer builder (a plugin that
+// reserves many words first); grouping must not depend on k.
+func c05ManyTypes(c *core.Ctx) {
+	for _, k := range []int{1, 15, 16, 17, 31, 32, 33, 63, 64, 65, 127, 128, 129, 255, 256, 257, 1000} {
+		for _, lx := range []int{6, 8, 11} {
+			if !c.Next() || c.Tick() {
+				continue
+			}
+			e := newC05Env()
+			for i := 0; i < k; i++ {
+				e.lb.RegisterTokenType(fmt.Sprintf("reserved%d", i))
+			}
+			tab := ref.NewPrecTable()
+			var errs []string
+			note := func(err error) {
+				if err != nil {
+					errs = append(errs, err.Error())
+				}
+			}
+			note(e.pb.RegisterInfixOperator(e.regType("X"), lx, mkInfix))
+			tab.Infix["X"] = lx
+			for i := 0; i < k/3; i++ {
+				e.lb.RegisterTokenType(fmt.Sprintf("more%d", i))
+			}
+			note(e.pb.RegisterPrefixOperator(e.regType("P"), mkPrefix))
+			tab.Prefix["P"] = true
+			note(e.pb.RegisterPostfixOperator(e.regType("Q"), mkPostfix))
+			tab.Postfix["Q"] = true
+			note(e.pb.RegisterInfixOperator(e.regType("Y"), 7, mkInfix))
+			tab.Infix["Y"] = 7
+			if len(errs) > 0 {
+				c.Violate(core.Violation{Kind: "group-registration-refused", Config: fmt.Sprintf("after %d token types", k), Case: strings.Join(errs, "; "), Detail: "registrations of fresh tokens refused", Size: 1})
+				continue
+			}
+			for _, toks := range [][]string{{"a", "X", "b", "*", "c"}, {"a", "*", "b", "X", "c"}, {"a", "X", "b", "Y", "c"}, {"P", "a", "X", "b"}, {"a", "X", "b", "Q"}, {"-", "a", "Q", "X", "b", "(", ")"}, {"a", "Y", "b", "X", "c", "Y", "d"}} {
+				c.Inc("grouping_cases")
+				c.Inc("many_token_type_cases")
+				kd, d := c05Compare(e, toks, tab)
+				if kd == "" {
+					c.Inc("grouping_cases_agree")
+				} else if c.ShrinkOK("many" + kd) {
+					c.Violate(core.Violation{Kind: "group-" + kd, Config: fmt.Sprintf("X@%d after %d token types", lx, k), Case: strings.Join(toks, " "), Detail: d, Size: 1000 + k})
+				}
+			}
+		}
+	}
+}
+
 func c05Run(c *core.Ctx) {
 	c05Group(c)
+	c05ManyTypes(c)
 	c05Long(c)
 	c05Registry(c)
 }
